@@ -45,7 +45,17 @@ unsafe impl GlobalAlloc for Observer {
 /// Run `f` with the observer armed on this thread; returns its result and the blocks freed
 /// during the call, in order.
 pub fn observe<T>(f: impl FnOnce() -> T) -> (T, Vec<Freed>) {
-    LOG.with(|l| l.borrow_mut().clear());
+    // disarm on every exit, including a panic unwinding out of `f` (the caller may catch it and observe again)
+    struct Disarm;
+    impl Drop for Disarm {
+        fn drop(&mut self) {
+            let _ = ARMED.try_with(|a| a.set(false));
+        }
+    }
+    ARMED.with(|a| a.set(false));
+    let old = LOG.with(|l| std::mem::take(&mut *l.borrow_mut()));
+    drop(old);
+    let _guard = Disarm;
     ARMED.with(|a| a.set(true));
     let r = f();
     ARMED.with(|a| a.set(false));
